@@ -66,13 +66,13 @@ def save_violation(pid: str, slot: dict) -> str:
     text = json.dumps(body, ensure_ascii=False, indent=1, default=repr)
     name = hashlib.sha1(text.encode("utf-8", "surrogatepass")).hexdigest()[:16] + ".json"
     path = os.path.join(d, name)
-    with open(path, "w") as f:
+    with open(path, "w", encoding="utf-8", errors="surrogatepass") as f:
         f.write(text)
     return path
 
 
 def load_case_file(path: str):
-    with open(path) as f:
+    with open(path, encoding="utf-8", errors="surrogatepass") as f:
         data = json.load(f)
     if isinstance(data, dict) and "case" in data:
         return data["case"]
